@@ -106,10 +106,17 @@ package exec
 //@   modifies unknown
 //@   preserves Limiter.held, Limiter.nacq, Limiter.lastAcq, localExecutor.limiter, localExecutor.sess, localExecutor.buffers, Session.p, Task.Pragma, nBufferOutput, lastBufferErr
 
-//@ extern func exec.bufferOutput (ctx, task, out) (buf, err)
-//@   ensures  nBufferOutput == old(nBufferOutput) + 1 && lastBufferErr == err
+// bufferOutput is under contract (C05/C06); callers use its contract:
+//@ func exec.bufferOutput (ctx, task, out) (buf, err)
+//@   requires task != nil && out != nil && task.NumPartition >= 1 && defaultChunksize != nil && *defaultChunksize >= 1 && task.Type != nil
+//@   flag recover_safety
+//@   flag abstract_calls frame.Make,frame.AppendFrame,frame.Frame.Slice
+//@   ghost_ensures counted: nBufferOutput == old(nBufferOutput) + 1 && lastBufferErr == err
+//@   ensures  panic-becomes-fatal-error: implies(stackCalls > old(stackCalls), err != nil && isFatal(err))
+//@   ensures  reader-error-passed-through: implies(err != nil && stackCalls == old(stackCalls), err == out.lastErr && out.lastErr != sliceio.EOF)
 //@   modifies unknown
 //@   preserves Limiter.held, Limiter.nacq, Limiter.lastAcq, localExecutor.limiter, localExecutor.sess, localExecutor.buffers, Session.p, Task.Pragma
+//@   loop 1 invariant task.NumPartition >= 1 && len(buf) == task.NumPartition && len(shards) == *defaultChunksize && *defaultChunksize >= 1 && stackCalls == old(stackCalls) && out != nil && task != nil
 
 //@ spec func storedIfOK(l *localExecutor, task *Task) bool = implies(task.state == TaskOk, has(l.buffers, task))
 
@@ -369,3 +376,14 @@ package exec
 //@   modifies task.state, task.err, task.waitc, task.consecutiveLost
 //@   loop 1 invariant task.consecutiveLost == old(task.consecutiveLost)
 //@   loop 2 invariant task.consecutiveLost == old(task.consecutiveLost)
+
+// ---- C05: the default partitioner places a row by the hash of its key values and the shard count alone ----
+// rowHash (package frame) is the xor of the element hashes of the key columns at the row: a function of the key
+// values, the column types and the (constant) seed — not of the row's position, the frame's offset or the producer.
+
+//@ func exec.defaultPartitioner (ctx, f, nshard, shards)
+//@   requires wf(f) && f.prefix >= 0 && 1 <= nshard && nshard <= 4294967295 && len(shards) <= f.len
+//@   ensures  by-key-hash: forall(i, 0, len(shards), shards[i] == int(rowHash(f, i, 0) % uint32(nshard)))
+//@   ensures  in-range: forall(i, 0, len(shards), 0 <= shards[i] && shards[i] < nshard)
+//@   modifies shards[:]
+//@   loop 1 invariant forall(j, 0, range_idx, shards[j] == int(rowHash(f, j, 0) % uint32(nshard)) && 0 <= shards[j] && shards[j] < nshard)
